@@ -11,12 +11,15 @@ CHECKS = {
  "C01": dict(
    text="Refinement proof: the MemoryFS model (fs/memoryfs.py + the fs/base.py defaults it uses) refines the reference "
         "semantics FS/Ref.v (verdict, admissible error class, return value, resulting tree) for every well-formed state and "
-        "every argument, for all 23 calls that do not go through the directory walker plus movedir's fast path; "
-        "well-formedness is an invariant. " + CORR + "Every other backend/composition (OSFS, TempFS, SubFS, WrapFS, MountFS, "
-        "MultiFS, write-mode Zip/Tar) and the walker-based calls are compared with the reference step by step from the "
-        "backend's own pre-state (correspondence only).",
+        "every argument, for all calls of the model: the 23 calls that do not go through the directory walker, makedirs, copydir and "
+        "movedir (fast path and directory merges; non-degenerate source/destination, NUL-free names as invariant); "
+        "well-formedness is an invariant. The SubFS model (any nesting depth) and WrapFS over it refine the reference on the "
+        "sub-tree and change nothing outside it. " + CORR + "Real MemoryFS and SubFS(MemoryFS) are compared with their models "
+        "step by step (outcome and exact entry order, incl. the parent outside the sub-directory); every other backend/composition "
+        "(OSFS, TempFS, WrapFS kinds, MountFS, MultiFS, write-mode Zip/Tar) is compared with the reference step by step from "
+        "the backend's own pre-state (correspondence only).",
    note=TB + "Modelled not verified: CPython str/OrderedDict semantics, the Linux kernel behind OSFS, archives' temp filesystems. "
-        "copydir/makedirs/movedir-merge, FTPFS: correspondence only (FTPFS not exercised).",
+        "Degenerate merges (destination an ancestor of the source) and FTPFS: not proved; FTPFS not exercised (needs a server).",
    technique="Coq refinement proof (Mem model vs reference) + extracted-model/real-code differential on 13 backends",
    ref="DESIGN.md §4 C01, §9"),
  "C04": dict(
@@ -32,11 +35,13 @@ CHECKS = {
  "C05": dict(
    text="Theorems: the extracted predicate `preserved` (no unrelated file lost or changed; successful transfer delivered) holds "
         "for the reference semantics and for the MemoryFS model for every well-formed tree and every argument pair of move, "
-        "copy, removetree and movedir onto a fresh destination (model tree = reference tree exactly). " + CORR +
+        "copy, removetree and movedir onto a fresh destination (model tree = reference tree exactly), and for the model's copydir "
+        "and movedir with directory merges whatever the outcome (FS/RefineWalkPreserved.v). " + CORR +
         "The same extracted predicate is applied to storage snapshots of 8 backends and of fs.move/fs.copy functions across "
-        "filesystem pairs; symlink scenarios on OSFS.",
-   note=TB + "Directory merges (copydir, movedir onto an existing directory, degenerate nestings) are covered by the "
-        "correspondence run only. OSFS runs against the real kernel.",
+        "filesystem pairs, incl. two filesystem objects over one storage and a corpus of degenerate nestings; symlink scenarios "
+        "on OSFS.",
+   note=TB + "Degenerate nestings (destination inside / ancestor of the source) and views of one storage are covered by the "
+        "correspondence run only (four recorded findings). OSFS runs against the real kernel.",
    technique="Coq proof of the preservation predicate on reference+model; extracted predicate applied to real snapshots",
    ref="DESIGN.md §4 C05, §9"),
  "C06": dict(
@@ -117,9 +122,12 @@ CHECKS = {
    text="Theorems on the close model: a checked method of a closed object raises FilesystemClosed at any nesting depth; a write-"
         "mode archive is written exactly once whatever the number of close() calls (and the failing-write behaviour is stated as "
         "found); members closed iff auto_close; table theorem on the regenerated dispatch table (check() is the base class's "
-        "everywhere). Reflection sweep: every public data/metadata method after close (explicit, double, with-block) on 13 "
+        "everywhere); table theorem on the check()-placement table regenerated on every run from /repo's source by an ast "
+        "translator (every public data/metadata method defined in a filesystem class calls check()/validatepath(), directly or "
+        "through a private method that does, or only calls methods on self/super). Reflection sweep: every public data/metadata method after close (explicit, double, with-block) on 13 "
         "constructions with storage snapshots; finaliser probes (archives, TempFS, gc).",
-   note=TB + "Which methods call check() is exercised by reflection, not proved; gc-driven close is exercised only.",
+   note=TB + "The ast translator (harness/h_reflect.py check_table) is trusted for the placement table; that a check() call "
+        "comes before any effect inside a method body is exercised by the sweep, not proved; gc-driven close is exercised only.",
    technique="Coq proof on the close model + reflection-driven differential",
    ref="DESIGN.md §4 C18, §9"),
 }
@@ -130,7 +138,7 @@ CHECKS.update({
    text="Theorems: the chunked copy loop of fs.tools.copy_file_data transfers every byte in order for every chunk size (None, "
         "negative, any positive) and every pattern of short reads, never writes an empty or over-long chunk, copies nothing for "
         "chunk size 0 (boundary stated); the digest is fed exactly the file; make_stream's layer table for the 24 mode spellings "
-        "(by computation). " + CORR + "Real copy_file_data vs the model with short-reading readers; 8 write paths x 8 read paths x "
+        "(by computation). " + CORR + "Real copy_file_data vs the model with short-reading readers; 10 write paths (incl. append mode after seek/read) x 8 read paths x "
         "boundary lengths per chunk size (incl. 1 MiB+-1, 5 MiB thorough) x backends; text with 7 encoding/errors x 5 newline "
         "settings against CPython's io.TextIOWrapper(io.BytesIO).",
    note=TB + "Encoding/decoding/newline translation is CPython's io layer: differential only. A blocking reader returns b'' only at "
@@ -189,7 +197,7 @@ CHECKS.update({
         "removedir against a one-block writebytes has a schedule no sequential order explains; merged into one block it is "
         "linearizable). Real code: real threads serialised by a baton, context switch possible before every line of library code "
         "and at every lock operation (RLock proxies), all non-preemptive orders + every single preemption + sampled double/random "
-        "ones, for pairs of 25 call templates x path relations on MemoryFS, OSFS, MountFS, MultiFS, SubFS views; every outcome "
+        "ones (every double preemption for the shared pattern-cache cases), for pairs of 25 call templates x path relations on MemoryFS, OSFS, MountFS, MultiFS, SubFS views; every outcome "
         "must be produced by some sequential order on the same backend; deadlock/livelock/timeouts/foreign exceptions detected.",
    note=TB + "The races of methods made of several blocks (removedir, writebytes, getinfo, copy, walks/glob, wrapper kinds whose "
         "lock does not cover the wrapped filesystem) are genuine and recorded as known findings by class signature "
@@ -214,7 +222,7 @@ CHECKS.update({
         "(incl. unknown times), newer/older exclusive, exists/not_exists complementary; the per-file loop of copy_dir_if copies "
         "exactly the files satisfying the condition against the original destination, reports exactly those, and leaves every "
         "other path unchanged; mirror's comparison settles. Real code: pairs of generated trees (disjoint/overlapping/"
-        "conflicting/empty) x 4 backend pairs x 4 walkers x mtime relations x 5 conditions x preserve_time; copy_fs/copy_dir/"
+        "conflicting/empty) x 4 backend pairs + 3 same-filesystem-object backends x 4 walkers x mtime relations x 5 conditions x preserve_time; copy_fs/copy_dir/"
         "*_if/mirror compared with an expectation computed from the documentation alone.",
    note=TB + "mirror with a depth-limited walker is a recorded finding. Worker threads are C09's.",
    technique="Coq proof of the condition table and copy loop + tree-pair differential",
